@@ -60,7 +60,7 @@ def build(tier, seed):
     names = list(cols)
     frame_cols = dict((c, cols[c]) for c in (reversed(names) if rev else names))     # frame column order != page_by order
     frame_cols["v"] = ["x", "y"]
-    got = PageByStrategy._get_group_headers(NS(), FakeFrame(frame_cols), names, start)
+    got = PageByStrategy._get_group_headers(NS.of(PageByStrategy), FakeFrame(frame_cols), names, start)
     if start >= 2:
         return got == {}
     exp = [(c, cols[c][start]) for c in names if cols[c][start] != DIV]
